@@ -740,7 +740,7 @@ fn explore(rt: &tokio::runtime::Runtime, name: &str, sc: &Scenario, cap: u64, se
 // ------------------------------------------------------------------------------------------
 
 fn multithread_runs(args: &Args, rep: &mut Report) {
-    let runs = if args.focus.is_some() { 3000 } else { args.budget(400, 30000) };
+    let runs = if args.focus.is_some() { 3000 } else { args.budget(400, 10000) };
     let rt = tokio::runtime::Builder::new_multi_thread().worker_threads(4).enable_all().build().unwrap();
     let setup_rt = tokio::runtime::Builder::new_current_thread().enable_all().build().unwrap();
     let mut failures = 0u64;
@@ -825,7 +825,7 @@ fn main() {
         }
         // search mode (an obligation or the correspondence broke): a budget between the tiers, so
         // that it ends well inside its timeout
-        let n = if args.focus.is_some() { 8000 } else { args.budget(700, 30000) };
+        let n = if args.focus.is_some() { 8000 } else { args.budget(700, 9000) };
         let only: Option<u64> = args.extra.get("only").and_then(|s| s.parse().ok());
         for i in 0..n {
             if only.is_some_and(|o| o != i) { continue; }
@@ -833,7 +833,7 @@ fn main() {
             cases.push((format!("gen{i}"), gen_scenario(&mut r)));
         }
     }
-    let cap = args.extra.get("cap").and_then(|s| s.parse().ok()).unwrap_or(if args.focus.is_some() { 600 } else { args.budget(150, 1500) });
+    let cap = args.extra.get("cap").and_then(|s| s.parse().ok()).unwrap_or(if args.focus.is_some() { 600 } else { args.budget(150, 1000) });
     let mut total = 0u64;
     let mut exhaustive_scenarios = 0u64;
     let mut shrunk = 0;
